@@ -1497,16 +1497,16 @@ func (c *Ctx) windowCoverageViaHelper(g *ssa.Function, a *fnAn, loop *natLoop, c
 	if pTop < 0 || pWin < 0 {
 		return "the helper that computes the range is not handed the exported position and the window size", false
 	}
-	var ret *ssa.Return
+	var rets []*ssa.Return
 	for _, b := range h.Blocks {
 		if r, ok := b.Instrs[len(b.Instrs)-1].(*ssa.Return); ok && b != h.Recover {
-			if ret != nil {
-				return "the helper that computes the range has several returns", false
+			if len(r.Results) != 2 {
+				return "the helper that computes the range does not return (first, count)", false
 			}
-			ret = r
+			rets = append(rets, r)
 		}
 	}
-	if ret == nil || len(ret.Results) != 2 {
+	if len(rets) == 0 || len(rets) > 4 {
 		return "the helper that computes the range does not return (first, count)", false
 	}
 	// the count is the other result, and the loop here stops at first+count
@@ -1521,6 +1521,7 @@ func (c *Ctx) windowCoverageViaHelper(g *ssa.Function, a *fnAn, loop *natLoop, c
 		return "the count the helper returns is not used", false
 	}
 	iAt := atom{akVal, ssa.Value(ind)}
+	secondIsEnd, provedAsCount := false, false
 	firstL, countL := a.linOf(firstEx, 0), a.linOf(countEx, 0)
 	lastMarked := single(iAt).add(konst(1), -1) // on an exit the counter is one past the last number asked about
 	for b := range loop.blocks {
@@ -1532,10 +1533,19 @@ func (c *Ctx) windowCoverageViaHelper(g *ssa.Function, a *fnAn, loop *natLoop, c
 			if iff, ok := b.Instrs[len(b.Instrs)-1].(*ssa.If); ok && b.Succs[0] != b.Succs[1] {
 				fs = append(fs, a.condFacts(iff.Cond, b.Succs[0] == su)...)
 			}
-			// last >= first + count - 1
+			// last >= first + count - 1, or - when the second result is the end of the range,
+			// one past its newest number - last >= end - 1
 			goal := lastMarked.add(firstL, -1).add(countL, -1).add(konst(1), 1)
-			if !a.proveAny(fs, []lin{goal}, 0) {
-				return "the marking loop can stop (" + c.ipos(b.Instrs[len(b.Instrs)-1]) + ") before it has asked about first+count-1, the newest number of the range its helper computed", true
+			goalEnd := lastMarked.add(countL, -1).add(konst(1), 1)
+			switch {
+			case !secondIsEnd && a.proveAny(fs, []lin{goal}, 0):
+			case a.proveAny(fs, []lin{goalEnd}, 0) && !provedAsCount:
+				secondIsEnd = true
+			default:
+				return "the marking loop can stop (" + c.ipos(b.Instrs[len(b.Instrs)-1]) + ") before it has asked about the newest number of the range its helper computed", true
+			}
+			if !secondIsEnd {
+				provedAsCount = true
 			}
 		}
 	}
@@ -1555,15 +1565,20 @@ func (c *Ctx) windowCoverageViaHelper(g *ssa.Function, a *fnAn, loop *natLoop, c
 		}
 	}
 	topL, winL := ah.linOf(topH, 0), ah.linOf(h.Params[pWin], 0)
-	fL, cL := ah.linOf(ret.Results[firstEx.Index], 0), ah.linOf(ret.Results[countIdx], 0)
-	facts := append([]cons{}, ah.blockFacts(ret.Block())...)
-	oldEdge := []lin{fL.scale(-1), topL.add(konst(1), 1).add(fL, -1).add(winL, -1)}
-	if !ah.proveAny(facts, oldEdge, 0) {
-		return "the oldest number " + short(h) + " hands back can be younger than position - window + 1: the numbers between the two are accepted once more by the resumed connection", true
-	}
-	newest := fL.add(cL, 1).add(konst(1), -1).add(topL, -1)
-	if !ah.proveAny(facts, []lin{newest}, 0) {
-		return "the range " + short(h) + " hands back can end before the exported position: the newest numbers are accepted once more by the resumed connection", true
+	for _, ret := range rets {
+		fL, cL := ah.linOf(ret.Results[firstEx.Index], 0), ah.linOf(ret.Results[countIdx], 0)
+		facts := append([]cons{}, ah.blockFacts(ret.Block())...)
+		oldEdge := []lin{fL.scale(-1), topL.add(konst(1), 1).add(fL, -1).add(winL, -1)}
+		if !ah.proveAny(facts, oldEdge, 0) {
+			return "the oldest number " + short(h) + " hands back can be younger than position - window + 1: the numbers between the two are accepted once more by the resumed connection", true
+		}
+		newest := fL.add(cL, 1).add(konst(1), -1).add(topL, -1)
+		if secondIsEnd {
+			newest = cL.add(konst(1), -1).add(topL, -1)
+		}
+		if !ah.proveAny(facts, []lin{newest}, 0) {
+			return "the range " + short(h) + " hands back can end before the exported position: the newest numbers are accepted once more by the resumed connection", true
+		}
 	}
 	return "", true
 }
